@@ -147,7 +147,7 @@ class Context(object):
             OK = (
                 label == n.label and 
                 u == n.u and 
-                df == n.df 
+                (df == n.df or (df != df and n.df != n.df))   # NaN dof of a zero-uncertainty intermediate
             )
             if not OK:
                 raise RuntimeError(
